@@ -40,6 +40,16 @@ func installTestElements() {
 		add(29305, 0, "extZero", ipfix.Uint16)
 		add(29305, 7, "extF64", ipfix.Float64)
 		add(4294967295, 32767, "extMax", ipfix.Ipv6Address)
+		add(9, 5, "extI8", ipfix.Int8)
+		add(9, 6, "extI16", ipfix.Int16)
+		add(9, 7, "extI32", ipfix.Int32)
+		add(9, 8, "extI64", ipfix.Int64)
+		add(9, 9, "extF32", ipfix.Float32)
+		add(0, 30001, "ext0I8", ipfix.Int8)
+		add(0, 30002, "ext0I16", ipfix.Int16)
+		add(0, 30003, "ext0I32", ipfix.Int32)
+		add(0, 30004, "ext0I64", ipfix.Int64)
+		add(0, 30005, "ext0F32", ipfix.Float32)
 	})
 }
 
